@@ -96,16 +96,17 @@ def check(case):
         # equivalent oxygens of ASH/GLH (the proton is always called HD2/HE2): no atom
         # moves.  Compare such a pair as an unordered set.
         for o1, o2, c, cb in (("OD1", "OD2", "CG", "CB"), ("OE1", "OE2", "CD", "CG")):
-            if base in ("ASP", "GLU") and all(k in out and k in names for k in (o1, o2, c, cb)):
-                star = [c, cb, o1, o2]
-                swap = [c, cb, o2, o1]
+            if base in ("ASP", "GLU") and all(k in out and k in names for k in (o1, o2, c)):
+                anchor_atoms = [c] + ([cb] if cb in out and cb in names else [])
+                star = anchor_atoms + [o1, o2]
+                swap = anchor_atoms + [o2, o1]
                 e_straight = geom.rmsd_fit([names[k] for k in star], [out[k] for k in star])
                 e_swapped = geom.rmsd_fit([names[k] for k in star], [out[k] for k in swap])
                 if e_swapped < e_straight:
                     out[o1], out[o2] = out[o2], out[o1]
                     res.label("carboxyl-names-swapped")
             elif base in ("ASP", "GLU") and o1 in out and o2 in out and c in out and cb in out and c in names and cb in names \
-                    and (o1 in names) != (o2 in names):
+                    and (o1 in names) != (o2 in names):  # noqa: E129
                 # only one oxygen was supplied (the other one is rebuilt): it may carry either name
                 oin = o1 if o1 in names else o2
                 oth = o2 if oin == o1 else o1
